@@ -72,6 +72,7 @@ class Steps:
         self.prefix = shapepy_dir()
         self.count = 0
         self.budget = None
+        self.tripped = False
         self.active = False
         self._codes = {}
 
@@ -91,11 +92,13 @@ class Steps:
         self.count += 1
         if self.budget is not None and self.count > self.budget:
             self.budget = None
+            self.tripped = True
             raise StepBudgetExceeded()
 
     def reset(self, budget=None):
         self.count = 0
         self.budget = budget
+        self.tripped = False
 
     def stop(self):
         if not self.active:
